@@ -55,9 +55,9 @@ def parse_data_name(fn):
 
 # ------------------------------------------------------------------ strategies
 @st.composite
-def channel(draw, name, kind, allow_child=True):
+def channel(draw, name, kind, allow_child=True, like=None):
     data_kind = "rf" if kind in ("rf", "legacy-rf") else "dmd"
-    S = draw(st.sampled_from([10, 60, 3600]))
+    S = draw(st.sampled_from([10, 60, 3600])) if like is None else like["S"]
     if data_kind == "rf":
         F = draw(st.sampled_from([1000, 2000, 500, S * 1000, S * 500]))
     else:
@@ -69,6 +69,8 @@ def channel(draw, name, kind, allow_child=True):
     # or the subdirectory in which the stamps pass 10^9 s
     base = draw(st.one_of(st.integers(T1980 // S, T2100 // S - 50), st.integers(T1980 // S, T2100 // S - 50),
                           st.sampled_from([0, 0, 10 ** 9 // S, 10 ** 9 // S - 1, (1 << 32) // S]))) * S
+    if like is not None and like["subdirs"]:
+        base = like["subdirs"][0]["t"]  # recorded at the same time as the other channel: same subdirectory names
     nsub = draw(st.integers(0, 4))
     # (a prefix may begin with "tmp" - only "tmp." marks a temporary file - or hold characters special to regexes / formats)
     prefixes = [draw(st.sampled_from(["rf", "rf", "ch", "data", "tmprf", "rf+1"]))] if data_kind == "rf" \
@@ -122,7 +124,8 @@ def trees(draw):
     names = ["chA", "chB", "chC", "zz"]
     for i in range(nchan):
         kind = draw(st.sampled_from(["rf", "rf", "dmd", "dmd", "legacy-rf", "legacy-dmd"]))
-        ch = draw(channel(names[i], kind))
+        prev = children[-1] if children and children[-1]["kind"] != "plain" and draw(st.integers(0, 2)) == 0 else None
+        ch = draw(channel(names[i], kind, like=prev))
         if draw(st.integers(0, 3)) == 0:
             ch = {"name": "grp%d" % i, "kind": "plain", "subdirs": [], "strays": [], "children": [ch]}
         children.append(ch)
